@@ -494,6 +494,7 @@ func execC11Own(spec *RunSpec) *Result {
 	outs, rep, sfs := runHistory(spec, spec.Kernel)
 	res.addStat("cases", int64(len(spec.Ops)))
 	res.addStat("steps", rep.Steps)
+	res.addStat("clock_span_ns", rep.ClockSpanNs)
 	for k, v := range sfs.Fired() {
 		res.addStat("fault_fs_"+k, v)
 	}
